@@ -52,6 +52,8 @@ pub enum Op {
     Json(String),
     Payload(u8, Vec<u8>),
     DropContent,
+    /// `set_stream` of these messages (single-line texts: the framing of messages is C17's subject)
+    Stream(Vec<String>),
 }
 
 #[derive(Debug, Clone, Serialize, Deserialize)]
@@ -115,6 +117,14 @@ enum Action {
     Remove,
 }
 
+struct VecStream(std::vec::IntoIter<String>);
+impl ohkami::util::Stream for VecStream {
+    type Item = String;
+    fn poll_next(mut self: std::pin::Pin<&mut Self>, _: &mut std::task::Context<'_>) -> std::task::Poll<Option<String>> {
+        std::task::Poll::Ready(self.0.next())
+    }
+}
+
 fn apply(res: &mut Response, op: &Op) {
     match op {
         Op::Set(h, v) => set_std(res, *h, Action::Set(v.clone())),
@@ -157,6 +167,9 @@ fn apply(res: &mut Response, op: &Op) {
         Op::DropContent => {
             let _ = res.drop_content();
         }
+        Op::Stream(msgs) => {
+            res.set_stream(VecStream(msgs.clone().into_iter()));
+        }
     }
 }
 
@@ -176,6 +189,8 @@ struct Model {
     headers: BTreeMap<String, String>,
     cookies: Vec<(String, String)>,
     payload: Option<Vec<u8>>,
+    /// the content is a stream of these messages
+    stream: Option<Vec<String>>,
     last_content_op_is_drop: bool,
 }
 fn trim_ows(s: &str) -> String {
@@ -211,18 +226,24 @@ fn model_of(case: &Case) -> Model {
             }
             Op::Cookie(n, v, _) => m.cookies.push((COOKIE_NAMES[*n as usize % 3].to_string(), v.clone())),
             Op::Text(s) => {
+                m.stream = None;
+                m.headers.remove("Transfer-Encoding");
                 set(&mut m, "Content-Type", "text/plain; charset=UTF-8");
                 set(&mut m, "Content-Length", &s.len().to_string());
                 m.payload = Some(s.as_bytes().to_vec());
                 m.last_content_op_is_drop = false;
             }
             Op::Html(s) => {
+                m.stream = None;
+                m.headers.remove("Transfer-Encoding");
                 set(&mut m, "Content-Type", "text/html; charset=UTF-8");
                 set(&mut m, "Content-Length", &s.len().to_string());
                 m.payload = Some(s.as_bytes().to_vec());
                 m.last_content_op_is_drop = false;
             }
             Op::Json(s) => {
+                m.stream = None;
+                m.headers.remove("Transfer-Encoding");
                 let body = serde_json::to_vec(&serde_json::Value::String(s.clone())).unwrap();
                 set(&mut m, "Content-Type", "application/json");
                 set(&mut m, "Content-Length", &body.len().to_string());
@@ -230,12 +251,26 @@ fn model_of(case: &Case) -> Model {
                 m.last_content_op_is_drop = false;
             }
             Op::Payload(ct, b) => {
+                m.stream = None;
+                m.headers.remove("Transfer-Encoding");
                 set(&mut m, "Content-Type", CTS[*ct as usize % 3]);
                 set(&mut m, "Content-Length", &b.len().to_string());
                 m.payload = Some(b.clone());
                 m.last_content_op_is_drop = false;
             }
+            Op::Stream(msgs) => {
+                // content operations own Content-Type, Content-Length and Transfer-Encoding; this one also sets Cache-Control
+                m.headers.remove("Content-Length");
+                set(&mut m, "Content-Type", "text/event-stream");
+                set(&mut m, "Cache-Control", "no-cache, must-revalidate");
+                set(&mut m, "Transfer-Encoding", "chunked");
+                m.payload = None;
+                m.stream = Some(msgs.clone());
+                m.last_content_op_is_drop = false;
+            }
             Op::DropContent => {
+                m.stream = None;
+                m.headers.remove("Transfer-Encoding");
                 m.headers.remove("Content-Type");
                 // the statement: a declared length on every response that may carry a body
                 m.headers.insert("Content-Length".into(), "0".into());
@@ -280,6 +315,7 @@ fn op_strategy() -> impl Strategy<Value = Op> {
         1 => small_text().prop_map(Op::Json),
         1 => (0u8..3, vec(any::<u8>(), 0..300)).prop_map(|(c, b)| Op::Payload(c, b)),
         2 => Just(Op::DropContent),
+        1 => vec("[a-z0-9 ]{0,12}", 0..4).prop_map(Op::Stream),
     ]
 }
 
@@ -295,7 +331,7 @@ fn has_invalid_value(case: &Case) -> bool {
 impl Property for C03 {
     type Case = Case;
     const ID: &'static str = "C03";
-    const RULE: &'static str = "generated: status from the whole Status enum × GET/HEAD × a history of 0–40 (thorough: up to 400, long enough to wrap the 8-bit slot index) public Response operations (set/append/remove on 13 standard headers incl. Content-Type and the misspelt Content-Encoding, 4 custom names and 3 standard names through the by-name entry point `.x()`, Set-Cookie with directive subsets, set_text/html/json/payload, drop_content), biased toward re-use of the same header; values printable ASCII/UTF-8 of length 0–5000 without CR/LF/NUL; framing headers never set by hand. Executed inside a real handler, through the real router (complete, HEAD handling) and serializer into a Vec. Oracle: independent response parser + a model of the history (name → latest value under an independently written canonical-name table; appends joined with ', '), framing rules of the statement, bytes written ≤ bytes reserved (hook H3 turns an overrun into a panic). Non-trivial = remove followed by set/append of the same header, or ≥ 3 operations on one header, or a content replacement/drop, or status 204/304, or HEAD; distinct by case.";
+    const RULE: &'static str = "generated: status from the whole Status enum × GET/HEAD × a history of 0–40 (thorough: up to 400, long enough to wrap the 8-bit slot index) public Response operations (set/append/remove on 13 standard headers incl. Content-Type and the misspelt Content-Encoding, 4 custom names and 3 standard names through the by-name entry point `.x()`, Set-Cookie with directive subsets, set_text/html/json/payload, set_stream, drop_content), biased toward re-use of the same header; values printable ASCII/UTF-8 of length 0–5000 without CR/LF/NUL; framing headers never set by hand. Executed inside a real handler, through the real router (complete, HEAD handling) and serializer into a Vec. Oracle: independent response parser + a model of the history (name → latest value under an independently written canonical-name table; appends joined with ', '), framing rules of the statement, bytes written ≤ bytes reserved (hook H3 turns an overrun into a panic). Non-trivial = remove followed by set/append of the same header, or ≥ 3 operations on one header, or a content replacement/drop, or status 204/304, or HEAD; distinct by case.";
     const ASSUMPTIONS: &'static [&'static str] = &[
         "header values contain no CR/LF/NUL and Content-Length/Transfer-Encoding are never set by hand (documented as the user's responsibility)",
         "1xx and 304 are only checked for self-consistency (the statement does not mention them)",
@@ -342,7 +378,7 @@ impl Property for C03 {
                     Op::Remove(h) => (format!("s{}", *h as usize % STD.len()), true, false),
                     Op::SetX(h, _) | Op::AppendX(h, _) => (format!("x{}", *h as usize % CUSTOM.len()), false, true),
                     Op::RemoveX(h) => (format!("x{}", *h as usize % CUSTOM.len()), true, false),
-                    Op::Text(_) | Op::Html(_) | Op::Json(_) | Op::Payload(..) | Op::DropContent => {
+                    Op::Text(_) | Op::Html(_) | Op::Json(_) | Op::Payload(..) | Op::DropContent | Op::Stream(_) => {
                         content_ops += 1;
                         continue;
                     }
@@ -415,13 +451,22 @@ impl Property for C03 {
                 return;
             }
         };
-        if let Some(d) = ex.declared {
+        // (a stream's chunks are written from buffers of their own: the reserved size covers the head only)
+        if let (Some(d), None) = (ex.declared, &m.stream) {
             if ex.wire.len() > d {
                 obs.fail("overrun:written-exceeds-declared", format!("wrote {} bytes, reserved {d}", ex.wire.len()));
             }
         }
         let status = case.status;
         let self_consistent_only = (100..200).contains(&status) || status == 304;
+        if m.stream.is_some() {
+            obs.label("stream-content");
+            if self_consistent_only {
+                // a stream as the content of a 1xx / 304: the statement does not say what that should be
+                obs.label("stream-on-1xx-304:no-verdict");
+                return;
+            }
+        }
         // (1) well-formedness
         let parsed = match crate::oracle::http::parse_response(&ex.wire, case.head) {
             Ok(p) => p,
@@ -465,7 +510,28 @@ impl Property for C03 {
                     obs.fail("framing:1xx-304-inconsistent", format!("{} bytes follow the head of a {status}, Content-Length {:?}", rest.len(), parsed.get("Content-Length")));
                 }
             }
+        } else if let Some(msgs) = &m.stream {
+            if !rest.is_empty() {
+                obs.fail("framing:stray-bytes", format!("{} bytes beyond the end of the chunked body", rest.len()));
+            }
+            if !parsed.chunked {
+                obs.fail("framing:stream-not-chunked", format!("the content is a stream, the response is not chunked (Content-Length {:?})", parsed.get("Content-Length")));
+            } else {
+                match std::str::from_utf8(&parsed.body) {
+                    Err(_) => obs.fail("stream:not-utf8", "the de-chunked body is not UTF-8".to_string()),
+                    Ok(text) => {
+                        let got: Vec<String> = crate::oracle::sse::parse(text).events.iter().map(|e| e.data.clone()).collect();
+                        if &got != msgs {
+                            obs.fail("stream:messages-differ", format!("events {got:?}, messages {msgs:?}"));
+                        }
+                    }
+                }
+            }
         } else {
+            if parsed.chunked {
+                obs.fail("framing:chunked-without-stream", format!("the content is not a stream, yet the response says Transfer-Encoding: chunked (Content-Length {:?}); a client reads the {} body bytes as chunks", parsed.get("Content-Length"), m.payload.as_ref().map_or(0, |p| p.len())));
+                return;
+            }
             if !rest.is_empty() {
                 obs.fail("framing:stray-bytes", format!("{} bytes beyond the declared length", rest.len()));
             }
@@ -478,6 +544,12 @@ impl Property for C03 {
         let mut want: BTreeMap<String, String> = m.headers.iter().map(|(k, v)| (k.clone(), trim_ows(v))).collect();
         if status == 204 {
             want.remove("Content-Length");
+            // (RFC 9112 §6.1: no Transfer-Encoding in a 204)
+            want.remove("Transfer-Encoding");
+        }
+        if case.head && m.stream.is_some() && parsed.get("Transfer-Encoding").is_none() {
+            // RFC 9110 §9.3.2: the response to HEAD may omit the header fields that describe the content's framing
+            want.remove("Transfer-Encoding");
         }
         if !self_consistent_only && status != 204 && !want.contains_key("Content-Length") {
             // the statement demands a declared length here; reported above by the parser when absent.
